@@ -26,22 +26,23 @@ def offsets_alphabet(dtype):
             ("f", 0.5, -1), ("f", 0.5, 0), ("f", 0.5, 1), ("t", 0.75, 0), ("n", 1.0, -1)]
 
 
-def _position(dtype, dx, cell, off):
+def _position(dtype, dx, cell, off, origin=None):
     _, frac, ulps = off
-    x = dtype((cell + 0.5 + frac) * dx)
+    x = dtype((cell + frac) * dx + (dx / 2 if origin is None else origin))
     for _ in range(abs(ulps)):
         x = np.nextafter(x, dtype(np.inf if ulps > 0 else -np.inf))
     return x
 
 
-def case_lattice(dim, kernel, dtype, dx, base_cells, n_markers=None):
+def case_lattice(dim, kernel, dtype, dx, base_cells, n_markers=None, shift="default"):
     real_t = np.dtype(dtype).type
     shape = lagcomm.SHAPES[dim]
     # construction history: a communicator of the OTHER kernel type and another spacing is built first
     # in the same process (nothing of it may leak into the one under test)
     other_dx = lagcomm.DXS[(lagcomm.DXS.index(dx) + 1) % len(lagcomm.DXS)] if dx in lagcomm.DXS else lagcomm.DXS[0]
     lagcomm.Comm(dim, "peskin" if kernel == "cosine" else "cosine", real_t, other_dx)
-    comm = lagcomm.Comm(dim, kernel, real_t, dx, n=n_markers or lagcomm.N_BATCH)
+    comm = lagcomm.Comm(dim, kernel, real_t, dx, n=n_markers or lagcomm.N_BATCH, shift=lagcomm.shift_value(shift, dx))
+    origin = comm.shift  # coordinate of the first cell centre along every axis
     n = comm.n
     eps = float(np.finfo(real_t).eps)
     offs = offsets_alphabet(real_t)
@@ -58,7 +59,7 @@ def case_lattice(dim, kernel, dtype, dx, base_cells, n_markers=None):
     # the simulator's own coordinate field for the affine test
     from harness.registry import position_field
 
-    pos_field = position_field(shape, dx, real_t)
+    pos_field = position_field(shape, dx, real_t, [origin] * dim)
     const_field = np.full((dim, *shape), 2.5, dtype=real_t)
     for b in range(0, len(combos), n):
         batch = combos[b : b + n]
@@ -67,7 +68,7 @@ def case_lattice(dim, kernel, dtype, dx, base_cells, n_markers=None):
         P = np.empty((dim, n), dtype=real_t)
         for m, combo in enumerate(batch):
             for k in range(dim):
-                P[k, m] = _position(real_t, dx, combo[k][0], combo[k][1])
+                P[k, m] = _position(real_t, dx, combo[k][0], combo[k][1], origin)
         P0 = P.copy()
         near, W = comm.locate(P)
         if not np.array_equal(P, P0):
@@ -78,14 +79,14 @@ def case_lattice(dim, kernel, dtype, dx, base_cells, n_markers=None):
         comm.interpolate(lag_p, pos_field)
         for m in range(nb):
             states += 1
-            ctx = dict(dim=dim, kernel=kernel, dtype=dtype, dx=dx, position=[float(v) for v in P[:, m]], cells=[c[0] for c in batch[m]], offsets=[c[1] for c in batch[m]])
-            ref1d = [delta.weights_1d(kernel, float(P[k, m]), dx, ncell[k]) for k in range(dim)]  # per marker axis k
+            ctx = dict(dim=dim, kernel=kernel, dtype=dtype, dx=dx, grid_origin=shift, position=[float(v) for v in P[:, m]], cells=[c[0] for c in batch[m]], offsets=[c[1] for c in batch[m]])
+            ref1d = [delta.weights_1d(kernel, float(P[k, m]), dx, ncell[k], origin) for k in range(dim)]  # per marker axis k
             win = comm.window(m)  # per array axis a (z..x)
             ok_window = all(w[0] >= 0 and w[-1] < shape[a] for a, w in enumerate(win))
             if not ok_window:
                 fails.append(Fail(f"{kernel}:window-out-of-grid", "support window leaves the grid for an admissible marker", **ctx))
                 continue
-            true_floor = [int(np.floor(float((delta.Fraction(float(P[k, m])) - delta.Fraction(float(dx)) / 2) / delta.Fraction(float(dx))))) for k in range(dim)]
+            true_floor = [int(np.floor(float((delta.Fraction(float(P[k, m])) - delta.Fraction(float(origin))) / delta.Fraction(float(dx))))) for k in range(dim)]
             if any(int(near[k, m]) != true_floor[k] for k in range(dim)):
                 slipped += 1
             # reference on the window (array axis a <-> marker axis dim-1-a)
@@ -128,7 +129,7 @@ def case_lattice(dim, kernel, dtype, dx, base_cells, n_markers=None):
             if kernel == "peskin":
                 for k in range(dim):
                     a = dim - 1 - k
-                    centres = (win[a] + 0.5) * LD(dx)
+                    centres = win[a] * LD(dx) + LD(origin)
                     sh = [1] * dim
                     sh[a] = 4
                     mom = float(((centres - LD(float(P[k, m]))).reshape(sh) * wm).sum() * LD(dx) ** dim) / dx
@@ -181,6 +182,14 @@ def run(r) -> None:
             for dt in ("float64", "float32"):
                 for nm in (1, 512):
                     cases.append(dict(dim=dim, kernel=kernel, dtype=dt, dx=lagcomm.DXS[0], base_cells=mid, n_markers=nm))
+    # grids whose first cell centre is not at dx / 2 (node-centred grid, far-offset origin)
+    for dim in (2, 3):
+        shape = lagcomm.SHAPES[dim]
+        mid = [[shape[dim - 1 - k] // 2, 2] for k in range(dim)]
+        for kernel in ("cosine", "peskin"):
+            for dt in ("float64", "float32"):
+                for sh in ("zero", "far"):
+                    cases.append(dict(dim=dim, kernel=kernel, dtype=dt, dx=lagcomm.DXS[1], base_cells=mid if dim == 2 else [m[:1] for m in mid], shift=sh))
     res = r.run_cases("offset-lattice", "lattice", cases)
     agg = {}
     slips = 0
@@ -194,6 +203,6 @@ def run(r) -> None:
     r.extra["positions_where_floor_index_slipped"] = slips
     r.bounds = {"offsets_per_axis": [f"{o[0]}:{o[1]}{o[2]:+d}ulp" for o in offsets_alphabet(np.float64)], "crossed_over_all_axes": True,
                 "base_cells": "{n/2, 2, 3, n-3} per axis" + (" (3-D: at most one axis away from n/2)" if quick else " (full cross)"),
-                "dx": lagcomm.DXS, "shapes": lagcomm.SHAPES, "batch": lagcomm.N_BATCH, "marker_counts": [1, lagcomm.N_BATCH, 512]}
+                "dx": lagcomm.DXS, "grid_origins": lagcomm.SHIFTS, "shapes": lagcomm.SHAPES, "batch": lagcomm.N_BATCH, "marker_counts": [1, lagcomm.N_BATCH, 512]}
     r.extra["rule"] = "one state per marker position of the offset lattice (all axes crossed); every position goes through the real support/weights/interpolation closures"
     r.assumptions = ["numba closures compiled with fastmath: inputs contain no NaN/inf; tolerances 4 eps (4 + |x|/dx) relative to (1/dx)^d"]
